@@ -7,7 +7,7 @@ From PM.theories Require Import Base Lock.
 Open Scope list_scope.
 
 Definition parks_before (o : lop) : bool :=
-  match o with ConnectCheck | Acquire | Connect | Send | Recv => true | _ => false end.
+  match o with ConnectCheck | Acquire | Connect | Send | SendB | Recv => true | _ => false end.
 
 Definition next_op (σ : state) (t : nat) : option (option lop) :=   (* Some None = return *)
   match nth_error (st_thr σ) t with
@@ -60,7 +60,7 @@ Definition obs_event := (nat * nat * evkind)%type.            (* thread, call in
 Definition obs_result := option (N * nat * nat)%type.         (* reply: wire tid, request identity *)
 
 Record lcase := {
-  lc_calls : list nat;                 (* number of calls per thread *)
+  lc_prog : list (list bool);          (* per thread, per call: is it a broadcast request? *)
   lc_sched : list nat;                 (* the schedule the harness drove *)
   lc_log : list obs_event;             (* transport log observed on the real client *)
   lc_results : list (list obs_result); (* per thread, per call: what execute() returned *)
@@ -82,11 +82,13 @@ Definition model_results (σ : state) : list (list obs_result) :=
                                 | Some f => Some (f_tid f, f_thr f, f_k f)
                                 | None => None end) (th_results th)) (st_thr σ).
 
-Definition program (call : list lop) (calls : list nat) : list (list (list lop)) :=
-  map (fun n => repeat call n) calls.
+Definition program (call bcall : list lop) (prog : list (list bool)) : list (list (list lop)) :=
+  map (map (fun b : bool => if b then bcall else call)) prog.
 
-Definition model_agrees (call : list lop) (c : lcase) : bool :=
-  match crun true (lc_sched c) (init 0 (program call (lc_calls c))) with
+Definition lc_calls (c : lcase) : list nat := map (@length bool) (lc_prog c).
+
+Definition model_agrees (call bcall : list lop) (c : lcase) : bool :=
+  match crun true (lc_sched c) (init 0 (program call bcall (lc_prog c))) with
   | None => false
   | Some σ =>
       list_eqb obs_event_eqb (model_log σ) (lc_log c)
@@ -120,6 +122,7 @@ Fixpoint no_overlap_from (fl : option (nat * nat)) (l : list obs_event) : bool :
   | (t, k, kd) :: r =>
       match kd with
       | KConnect => no_overlap_from fl r
+      | KSendB => match fl with None => no_overlap_from None r | Some _ => false end
       | KSend => match fl with
                  | None => no_overlap_from (Some (t, k)) r
                  | Some c => Nat.eqb (fst c) t && Nat.eqb (snd c) k && no_overlap_from fl r
@@ -132,7 +135,8 @@ Fixpoint no_overlap_from (fl : option (nat * nat)) (l : list obs_event) : bool :
   end.
 Definition no_overlap (l : list obs_event) : bool := no_overlap_from None l.
 
-(* every caller got the reply to its own request, exactly one per call *)
+(* every caller got the reply to its own request (a broadcast: its own acknowledgement),
+   exactly one per call *)
 Fixpoint own_from (t k : nat) (rs : list obs_result) : bool :=
   match rs with
   | [] => true
@@ -150,7 +154,8 @@ Fixpoint own_all (t : nat) (calls : list nat) (rss : list (list obs_result)) : b
 Fixpoint count_send (t k : nat) (l : list obs_event) : nat :=
   match l with
   | [] => 0
-  | (t', k', KSend) :: r => (if Nat.eqb t t' && Nat.eqb k k' then 1 else 0) + count_send t k r
+  | (t', k', KSend) :: r | (t', k', KSendB) :: r =>
+      (if Nat.eqb t t' && Nat.eqb k k' then 1 else 0) + count_send t k r
   | _ :: r => count_send t k r
   end.
 Fixpoint sends_once_k (t : nat) (n : nat) (l : list obs_event) : bool :=
@@ -162,5 +167,5 @@ Definition property_holds (c : lcase) : bool :=
   lc_completed c && contiguous_log (lc_log c) && no_overlap (lc_log c)
   && own_all 0 (lc_calls c) (lc_results c) && sends_once 0 (lc_calls c) (lc_log c).
 
-Definition chk_lock (call : list lop) (c : lcase) : bool * bool :=
-  (model_agrees call c, property_holds c).
+Definition chk_lock (call bcall : list lop) (c : lcase) : bool * bool :=
+  (model_agrees call bcall c, property_holds c).
